@@ -8,8 +8,9 @@ LEVEL_TEXT = ("Frame (ownership) analysis over every function of hotxlfp/**: one
               "and attribute stores, del, global) - its target must be created in the function (Fresh), be the production object of a grammar "
               "action (ParseOwned) or be self inside a registration method; host values and module state are never written.  Table: clock / "
               "random sources are read only in NOW, TODAY, RAND, RANDBETWEEN (dateutil's default-date = known finding); every `raise` of a shared "
-              "object is listed and parse() must leave no traceback on the shared error values.  Deductive: Parser.parse with debug on/off differs "
-              "only by a stderr write (ghost log).  History independence follows from the frames (nothing persistent is written) plus PLY's "
+              "object is listed and parse() must leave no traceback on the shared error values.  Deductive: the record Parser.parse returns is a "
+              "function of the grammar parser's outcome alone (value / error value / exception text; ghost log of the callee outcome) - so not "
+              "of self.debug, which only adds a stderr write.  History independence follows from the frames (nothing persistent is written) plus PLY's "
               "assumed per-call state; bounded: seeded histories against a fresh parser, host list deep-copies, traceback retention.")
 TRUSTED = ['PLY resets lexer position and builds fresh stacks per parse call (assumed)', 'the analysis is syntactic and conservative: unknown owner = host']
 CONTRACTS = ['Parser_parse', 'flatten', 'p_expseq_comma', 'p_expseq_semicolon', 'p_expseq_backslash', 'clear_tracebacks', 'LARGE']
